@@ -10,6 +10,10 @@ COMMON_NOTE = ("Trusted: Coq 8.16.1 kernel (vm_compute used, no native_compute);
                "driver + Rust harness. ")
 
 CLAIMS = {
+ "C04": dict(
+   text="c04_message (every Ok result of dlt_message leaves exactly the input behind skip + storage header + declared LEN, LEN >= 4, never Invalid, FilteredOut carries LEN - headers), c04_consume, c04_filter_independent and c04_parse_all_terminates (repeated parsing never runs out of fuel = length+1) proved for all byte strings, filters and storage modes over the model of parse.rs; tied to /repo by ops 8/10/25 on hostile and dialect inputs with the consumed length compared and checked by an oracle against the length field.",
+   note="Model covers parse.rs dlt_message/dlt_message_intern/dlt_payload/validated_payload_length/dlt_consume_msg/forward_to_next_storage_header and the nom 7.1.3 streaming combinators they use. memmem::Finder::find is modelled as first-occurrence search.",
+   technique="Coq proof (case analysis over the parser model, consumption lemmas per combinator, induction on fuel) + correspondence check"),
  "C17": dict(
    text="c17_ms / c17_us proved for every N input under the stated guard (whole seconds fit 32 bits), over a model that carries the `as u32` truncations and the checked u32 multiplication literally; tied to /repo by running both constructors and the extracted model on the same boundary and random inputs.",
    note="Model covers dlt.rs:191-204.",
